@@ -4,7 +4,7 @@
 //!                 [y,x0,x1]; tdone = 6 flags "iterator ended within the budget";
 //!                 ols = [[alignment 0 inside | 1 center | 2 outside, the set drawn by draw() with stroke
 //!                 width 1 and no fill (sorted runs), the set of pixels() of the same styled triangle, ended 0/1]]
-//!                 (an alignment whose stroke path panics is left out);
+//!                 (an alignment whose stroke path panics is left out and recorded as a `panic` event);
 //!                 lines = Line::points() of ab, ba, bc, cb, ca, ac as point lists
 //!   event `pair`: v = [a,b,c,d]; t1 / t2 = points() of (a,b,c) / (a,b,d) as runs; lab / lba = Line::points() of ab / ba
 //!   event `poly`: v, off; segs = Line(v[i]+off, v[i+1]+off).points(); pts = Polyline::points();
@@ -82,7 +82,6 @@ fn run_tri(rec: &mut Rec, d: &Value) {
         }
     };
     // one-pixel outline, no fill, for the three stroke alignments: [al, draw() set, pixels() set, pixels() ended]
-    // (a panic in the stroke path - known i32 overflows for large triangles, C08 - only drops the outline)
     let t = Triangle::new(v[0], v[1], v[2]);
     let mut ols = vec![];
     for al in 0..3u32 {
@@ -100,7 +99,10 @@ fn run_tri(rec: &mut Rec, d: &Value) {
         });
         match r {
             Ok(o) => ols.push(o),
-            Err(_) => rec.note("outline_panicked"),
+            Err(p) => {
+                rec.note("outline_panicked");
+                rec.ev("panic", json!({"msg": p.msg, "loc": p.loc}));
+            }
         }
     }
     // the triangle filled through a style without a stroke (no stroke colour / a stroke colour with width 0), for the
